@@ -90,3 +90,12 @@ func init() {
 		NotDecided: "equality of blocks as such (follows for location-abstracted state); effects of retained capacity are assumed invisible except where R-COPY-CLOBBER applies.",
 	}
 }
+
+func init() {
+	properties["C20"] = &Property{
+		Title: "configurations survive JSON, defaults and cloning",
+		Rules: []string{"R-UNION", "R-TYPESTR", "R-CLONE", "R-REFLECT-NAMES", "R-DEFAULTS-ZERO", "R-DEFAULTS-ORDER", "R-INIT-ORDER"},
+		Decided: "config struct fields ⊆ JSON union (name, type), unique JSON keys, value kinds only; Type strings of Marshal/Unmarshal/ParseJSON agree and are distinct; unknown/mismatching Type rejected; Clone copies; reflective helpers copy X to X; defaults only replace zero fields and are order-independent; parser stores and reports the defaults-completed verified value.",
+		NotDecided: "behaviour of encoding/json itself (trusted); that an equal configuration creates an identically behaving parser (C13).",
+	}
+}
